@@ -279,6 +279,32 @@ def _run(pid, cfg, tier, seed, repo, work, t0):
         rc = 1
     for kfd, f in known_hit:
         lines.append("KNOWN-FINDING: property=%s %s" % (pid, kfd.get("what", kfd.get("obligation"))))
+    # thorough tier: seeded sweeps of the executable oracles on the real crate (exploration on top of the proofs; a concrete
+    # failing input on this tree is a violation, the sweep itself is never counted as proof)
+    if tier == "thorough" and cfg.get("replay"):
+        from . import replay as rp
+        known_open = [k for k in load_known() if k.get("property") == pid and k.get("status") == "open"]
+        sweep = dict(groups=cfg["replay"], seeds=[], failures=0, note="sampling; not proof")
+        for s_ in (seed, seed + 1, seed + 2):
+            fails, out = rp.run_oracles(cfg["replay"], repo, work, s_)
+            sweep["seeds"].append(s_)
+            for x in fails:
+                if pid not in x.get("props", []):
+                    continue
+                key = "oracle:%s" % x.get("clause")
+                if any(k.get("obligation") == key for k in known_open):
+                    continue
+                sweep["failures"] += 1
+                os.makedirs(os.path.join(ROOT, "replays"), exist_ok=True)
+                path = os.path.join(ROOT, "replays", "%s-sweep.json" % pid)
+                with open(path, "w") as fo:
+                    json.dump(dict(property=pid, lane="oracle sweep (thorough tier)", seed=s_, tree=repo, failed_obligation=key, counterexample=x,
+                                   replay=dict(kind="oracle-test", groups=cfg["replay"], test=x.get("test"), seed=s_)), fo, indent=1)
+                if not any(l.endswith(path) for l in lines):
+                    lines.append("VIOLATION property=%s replay=%s" % (pid, path))
+                    ev["violations"] = ev.get("violations", 0) + 1
+                rc = 1
+        ev["coverage"]["oracle_sweep"] = sweep
     # probes: oracles for recorded schedule-dependent findings that no contract can express; they run on every check of
     # the property so that the finding is re-observed (KNOWN-FINDING) or, if it shows a different failure, reported
     if cfg.get("probes"):
@@ -338,6 +364,8 @@ def _run(pid, cfg, tier, seed, repo, work, t0):
         for u in units:
             with open(os.path.join(ROOT, "baseline", u["name"] + ".json"), "w") as fo:
                 json.dump(dict(obligations=sorted("%s/%s" % (o[0], o[1].split(":", 1)[-1]) for o in u["asm"].obligations())), fo, indent=1)
+    wall = time.time() - t0
+    ev["wall_s"] = round(wall, 2)
     os.makedirs(os.path.join(ROOT, "evidence"), exist_ok=True)
     with open(os.path.join(ROOT, "evidence", pid + ".json"), "w") as fo:
         json.dump(ev, fo, indent=1, default=str)
@@ -346,7 +374,8 @@ def _run(pid, cfg, tier, seed, repo, work, t0):
     for u in undecided:
         print("UNDECIDED: " + u)
     print("%s: %d obligations, %d discharged, %d violations, %d known findings, %d undecided notes, %.1fs [%s]" % (
-        pid, ev["coverage"]["obligations"], ev["coverage"]["discharged"], len(violations), len(known_hit), len(undecided), wall, tier))
+        pid, ev["coverage"]["obligations"], ev["coverage"]["discharged"], sum(1 for l in lines if l.startswith("VIOLATION")),
+        sum(1 for l in lines if l.startswith("KNOWN-FINDING")), len(undecided), wall, tier))
     return rc
 
 
